@@ -816,7 +816,7 @@ pub fn run(ctx: &mut Ctx) {
 			let my_prefix: Vec<usize> = (0..fixed).map(|b| ((ctx.shard >> b) & 1) as usize).collect();
 			let mut total = 0u64;
 			let race_known = ctx.known("C08.unused_ring_overflow_race");
-			for &(cap, ops, cbs, sounds) in &[(1usize, 3usize, 2usize, false), (2, 4, 2, false), (1, 5, 3, false), (1, 4, 3, true), (2, 6, 3, true)] {
+			for &(cap, ops, cbs, sounds) in &[(1usize, 3usize, 2usize, false), (2, 4, 2, false), (1, 5, 3, false), (1, 4, 3, true), (2, 6, 3, true), (1, 8, 5, true), (2, 8, 4, true), (3, 10, 4, true)] {
 				let mut prefix: Option<Vec<usize>> = Some(my_prefix.clone());
 				let mut count = 0u64;
 				let capn = ctx.t(1500u64, 150_000u64);
